@@ -527,8 +527,8 @@ theorem resolve_mem {pool own : List Nat} {r : Ref} {x : Nat} (h : resolve pool 
     · next y hy => simp at h; subst h; exact Or.inr (List.mem_reverse.mp (pick_mem hy))
     · exact Or.inl (List.mem_reverse.mp (pick_mem h))
 
-theorem resolveKV_mem {pool jpool own : List Nat} {r : Ref} {x : Nat}
-    (h : resolveKV pool jpool own r = some x) : x ∈ pool ∨ x ∈ own := by
+theorem resolveCls_mem {pool : List Nat} {cls : List (Nat × Nat)} {own : List Nat} {k : Nat} {r : Ref} {x : Nat}
+    (h : resolveCls pool cls own k r = some x) : x ∈ pool ∨ x ∈ own := by
   rcases resolve_mem h with h1 | h1
   · exact Or.inl (List.mem_filter.mp h1).1
   · exact Or.inr (List.mem_filter.mp h1).1
@@ -555,26 +555,38 @@ theorem beginOp_view (c : Cfg N) (th : Thread N) (op : Op N) (rest : List (Op N)
     ∀ h ∈ (beginOp c th op rest).view.held, h ∈ c.pool ∨ h ∈ th.own := by
   cases op with
   | source n => simp [beginOp, Thread.view, PC.resv, PC.held]; exact fun h hm => Or.inr hm
-  | derive p n =>
+  | derive p sig n =>
+    cases sig with
+    | none =>
+      simp only [beginOp]
+      cases hr : resolve c.pool th.own p with
+      | none => simp [Thread.finish, Thread.view, PC.resv, PC.held]; exact fun h hm => Or.inr hm
+      | some x =>
+        have := resolve_mem hr
+        simp [Thread.view, PC.resv, PC.held]
+        exact ⟨this, fun h hm => Or.inr hm⟩
+    | some sg =>
+      simp only [beginOp]
+      cases hr : resolveCls c.pool c.cls th.own sg.1 p with
+      | none => simp [Thread.finish, Thread.view, PC.resv, PC.held]; exact fun h hm => Or.inr hm
+      | some x =>
+        have := resolveCls_mem hr
+        simp [Thread.view, PC.resv, PC.held]
+        exact ⟨this, fun h hm => Or.inr hm⟩
+  | join l r tag =>
     simp only [beginOp]
-    cases hr : resolve c.pool th.own p with
+    cases hl : resolveCls c.pool c.cls th.own 0 l with
     | none => simp [Thread.finish, Thread.view, PC.resv, PC.held]; exact fun h hm => Or.inr hm
     | some x =>
-      have := resolve_mem hr
-      simp [Thread.view, PC.resv, PC.held]
-      exact ⟨this, fun h hm => Or.inr hm⟩
-  | join l r =>
-    simp only [beginOp]
-    cases hl : resolveKV c.pool c.jpool th.own l with
-    | none => simp [Thread.finish, Thread.view, PC.resv, PC.held]; exact fun h hm => Or.inr hm
-    | some x =>
-      cases hr : resolveKV c.pool c.jpool th.own r with
+      cases hr : resolveCls c.pool c.cls th.own 0 r with
       | none => simp [Thread.finish, Thread.view, PC.resv, PC.held]; exact fun h hm => Or.inr hm
       | some y =>
-        have h1 := resolveKV_mem hl
-        have h2 := resolveKV_mem hr
+        have h1 := resolveCls_mem hl
+        have h2 := resolveCls_mem hr
         simp [Thread.view, PC.resv, PC.held]
         exact ⟨h1, h2, fun h hm => Or.inr hm⟩
+  | setMetrics => simp [beginOp, Thread.view, PC.resv, PC.held]; exact fun h hm => Or.inr hm
+  | takeMetrics => simp [beginOp, Thread.view, PC.resv, PC.held]; exact fun h hm => Or.inr hm
   | collect x =>
     simp only [beginOp]
     cases hr : resolve c.pool th.own x with
@@ -617,12 +629,12 @@ theorem step_refines (kit : Kit N) (c : Cfg N) (i : Nat) (inv : AInv c.abs) :
       rcases hm with h1 | h1
       · left; simp [Thread.view, h1]
       · right; simp [h1, Cfg.abs]
-    | drvIns p n =>
+    | drvIns p k n =>
       simp only [stepTh, hpc]
       refine AStep.insert c.abs i th.view _ n hv (by simp [Thread.view, hpc, PC.resv, insertNode, Cfg.abs]) ?_
       intro h hm
       simpa [Thread.view, PC.held, hpc] using hm
-    | drvCon p m =>
+    | drvCon p m k =>
       simp only [stepTh, hpc, publish]
       refine AStep.connectPub c.abs i th.view _ p m hv (by simp [Thread.view, hpc, PC.resv])
         (Or.inl (by simp [Thread.view, hpc, PC.held])) ?_ (by simp [Thread.view, Thread.finishBuilt, PC.resv]) ?_
@@ -632,7 +644,7 @@ theorem step_refines (kit : Kit N) (c : Cfg N) (i : Nat) (inv : AInv c.abs) :
         rcases hm with h1 | h1
         · left; simp [Thread.view, h1]
         · right; exact h1
-    | joinSnapL l r =>
+    | joinSnapL l r tag =>
       simp only [stepTh, hpc]
       cases backwalk c.g l with
       | none =>
@@ -644,7 +656,7 @@ theorem step_refines (kit : Kit N) (c : Cfg N) (i : Nat) (inv : AInv c.abs) :
         refine AStep.tau c.abs i th.view _ hv (by simp [Thread.view, hpc, PC.resv]) ?_
         intro h hm
         simpa [Thread.view, PC.held, hpc] using hm
-    | joinSnapR l r lc =>
+    | joinSnapR l r tag lc =>
       simp only [stepTh, hpc]
       cases backwalk c.g r with
       | none =>
@@ -657,15 +669,15 @@ theorem step_refines (kit : Kit N) (c : Cfg N) (i : Nat) (inv : AInv c.abs) :
         intro h hm
         simp [Thread.view, PC.held] at hm
         simp [Thread.view, hm]
-    | joinInsD lc rc =>
+    | joinInsD tag lc rc =>
       simp only [stepTh, hpc]
       refine AStep.insert c.abs i th.view _ kit.dummy hv (by simp [Thread.view, hpc, PC.resv, insertNode, Cfg.abs]) ?_
       intro h hm
       simp [Thread.view, PC.held] at hm
       simp [Thread.view, hm]
-    | joinInsG d lc rc =>
+    | joinInsG d tag lc rc =>
       simp only [stepTh, hpc]
-      refine AStep.insert c.abs i th.view _ (kit.cogroup lc rc) hv
+      refine AStep.insert c.abs i th.view _ (kit.cogroup tag lc rc) hv
         (by simp [Thread.view, hpc, PC.resv, insertNode, Cfg.abs]) ?_
       intro h hm
       simp [Thread.view, PC.held] at hm
@@ -693,6 +705,18 @@ theorem step_refines (kit : Kit N) (c : Cfg N) (i : Nat) (inv : AInv c.abs) :
       intro h hm
       simpa [Thread.view, PC.held, hpc] using hm
     | colEnd x ch =>
+      simp only [stepTh, hpc]
+      refine AStep.tau c.abs i th.view _ hv (by simp [Thread.view, Thread.finish, hpc, PC.resv]) ?_
+      intro h hm
+      simp [Thread.view, Thread.finish, PC.held] at hm
+      simp [Thread.view, hm]
+    | metSet =>
+      simp only [stepTh, hpc]
+      refine AStep.tau c.abs i th.view _ hv (by simp [Thread.view, Thread.finish, hpc, PC.resv]) ?_
+      intro h hm
+      simp [Thread.view, Thread.finish, PC.held] at hm
+      simp [Thread.view, hm]
+    | metTake =>
       simp only [stepTh, hpc]
       refine AStep.tau c.abs i th.view _ hv (by simp [Thread.view, Thread.finish, hpc, PC.resv]) ?_
       intro h hm
@@ -726,9 +750,9 @@ structure GInv (c : Cfg N) : Prop where
   pcCol : ∀ (j : Nat) (th : Thread N), c.threads[j]? = some th →
     ∀ x ch, th.pc = .colEnd x ch → (x, ch) ∈ c.born
   pcJoinL : ∀ (j : Nat) (th : Thread N), c.threads[j]? = some th →
-    ∀ l r lc, th.pc = .joinSnapR l r lc → (l, some lc) ∈ c.born
+    ∀ l r tag lc, th.pc = .joinSnapR l r tag lc → (l, some lc) ∈ c.born
   pcJoin : ∀ (j : Nat) (th : Thread N), c.threads[j]? = some th →
-    ∀ lc rc, (th.pc = .joinInsD lc rc ∨ ∃ d, th.pc = .joinInsG d lc rc) →
+    ∀ tag lc rc, (th.pc = .joinInsD tag lc rc ∨ ∃ d, th.pc = .joinInsG d tag lc rc) →
       ∃ l r, (l, some lc) ∈ c.born ∧ (r, some rc) ∈ c.born
 
 theorem ginv_init (progs : List (List (Op N))) : GInv (Cfg.init progs) := by
@@ -741,8 +765,8 @@ theorem ginv_init (progs : List (List (Op N))) : GInv (Cfg.init progs) := by
   refine ⟨by simp [Cfg.init], by simp [Cfg.init], ?_, ?_, ?_, ?_⟩
   · intro j th h x ch hm; rw [(hth j th h).2] at hm; simp at hm
   · intro j th h x ch hp; rw [(hth j th h).1] at hp; cases hp
-  · intro j th h l r lc hp; rw [(hth j th h).1] at hp; cases hp
-  · intro j th h lc rc hp
+  · intro j th h l r tag lc hp; rw [(hth j th h).1] at hp; cases hp
+  · intro j th h tag lc rc hp
     rw [(hth j th h).1] at hp
     rcases hp with hp | ⟨d, hp⟩ <;> cases hp
 
@@ -765,28 +789,32 @@ theorem stepTh_born_shape (kit : Kit N) (c : Cfg N) (th : Thread N) :
   · simp
   · simp
   · simp
+  · simp
+  · simp
 
 theorem beginOp_thread (c : Cfg N) (th : Thread N) (op : Op N) (rest : List (Op N)) :
     (∀ x ch, Outcome.collected x ch ∈ (beginOp c th op rest).outs → Outcome.collected x ch ∈ th.outs) ∧
     (∀ x ch, (beginOp c th op rest).pc ≠ .colEnd x ch) ∧
-    (∀ l r lc, (beginOp c th op rest).pc ≠ .joinSnapR l r lc) ∧
-    (∀ lc rc, (beginOp c th op rest).pc ≠ .joinInsD lc rc) ∧
-    (∀ d lc rc, (beginOp c th op rest).pc ≠ .joinInsG d lc rc) := by
+    (∀ l r tag lc, (beginOp c th op rest).pc ≠ .joinSnapR l r tag lc) ∧
+    (∀ tag lc rc, (beginOp c th op rest).pc ≠ .joinInsD tag lc rc) ∧
+    (∀ d tag lc rc, (beginOp c th op rest).pc ≠ .joinInsG d tag lc rc) := by
   cases op with
   | source n => simp [beginOp]
-  | derive p n => simp only [beginOp]; split <;> simp [Thread.finish]
-  | join l r => simp only [beginOp]; split <;> simp [Thread.finish]
+  | derive p sig n => cases sig <;> (simp only [beginOp]; split <;> simp [Thread.finish])
+  | join l r tag => simp only [beginOp]; split <;> simp [Thread.finish]
   | collect x => simp only [beginOp]; split <;> simp [Thread.finish]
+  | setMetrics => simp [beginOp]
+  | takeMetrics => simp [beginOp]
 
 /-- what the stepping thread's new outcomes / program counter can be -/
 theorem stepTh_thread (kit : Kit N) (c : Cfg N) (th : Thread N) :
     (∀ x ch, Outcome.collected x ch ∈ (stepTh kit c th).2.outs →
         Outcome.collected x ch ∈ th.outs ∨ th.pc = .colEnd x ch) ∧
     (∀ x ch, (stepTh kit c th).2.pc = .colEnd x ch → th.pc = .colSnap x ∧ ch = backwalk c.g x) ∧
-    (∀ l r lc, (stepTh kit c th).2.pc = .joinSnapR l r lc → th.pc = .joinSnapL l r ∧ backwalk c.g l = some lc) ∧
-    (∀ lc rc, (stepTh kit c th).2.pc = .joinInsD lc rc →
-        ∃ l r, th.pc = .joinSnapR l r lc ∧ backwalk c.g r = some rc) ∧
-    (∀ d lc rc, (stepTh kit c th).2.pc = .joinInsG d lc rc → th.pc = .joinInsD lc rc) := by
+    (∀ l r tag lc, (stepTh kit c th).2.pc = .joinSnapR l r tag lc → th.pc = .joinSnapL l r tag ∧ backwalk c.g l = some lc) ∧
+    (∀ tag lc rc, (stepTh kit c th).2.pc = .joinInsD tag lc rc →
+        ∃ l r, th.pc = .joinSnapR l r tag lc ∧ backwalk c.g r = some rc) ∧
+    (∀ d tag lc rc, (stepTh kit c th).2.pc = .joinInsG d tag lc rc → th.pc = .joinInsD tag lc rc) := by
   unfold stepTh
   split
   · split
@@ -796,7 +824,12 @@ theorem stepTh_thread (kit : Kit N) (c : Cfg N) (th : Thread N) :
   · simp_all [Thread.finishBuilt]
   · simp_all
   · simp_all [Thread.finishBuilt]
-  · split <;> simp_all [Thread.finish]
+  · split
+    · simp_all
+      intro l r tag lc h1 h2 h3 h4
+      subst h1 h2 h3 h4
+      assumption
+    · simp_all [Thread.finish]
   · split
     · simp_all
       exact ⟨_, _, ⟨rfl, rfl⟩, by assumption⟩
@@ -811,6 +844,8 @@ theorem stepTh_thread (kit : Kit N) (c : Cfg N) (th : Thread N) :
     rcases h with h | ⟨rfl, rfl⟩
     · exact Or.inl h
     · exact Or.inr ⟨rfl, rfl⟩
+  · simp_all [Thread.finish]
+  · simp_all [Thread.finish]
 
 theorem ginv_step (kit : Kit N) (c : Cfg N) (i : Nat) (inv : AInv c.abs) (gi : GInv c) :
     GInv (step kit c i) := by
@@ -882,26 +917,26 @@ theorem ginv_step (kit : Kit N) (c : Cfg N) (i : Nat) (inv : AInv c.abs) (gi : G
       · rcases hTh.2.1 x ch hpc with ⟨h1, rfl⟩
         exact hbmono _ (hcur x (hheld x (by simp [h1, PC.held])))
       · exact hbmono _ (gi.pcCol j w hj' x ch hpc)
-    · intro j w hj l r lc hpc
+    · intro j w hj l r tag lc hpc
       rw [hts] at hj
       rcases getElem?_set_cases hj with ⟨_, rfl⟩ | ⟨_, hj'⟩
-      · rcases hTh.2.2.1 l r lc hpc with ⟨h1, h2⟩
+      · rcases hTh.2.2.1 l r tag lc hpc with ⟨h1, h2⟩
         have := hcur l (hheld l (by simp [h1, PC.held]))
         rw [h2] at this
         exact hbmono _ this
-      · exact hbmono _ (gi.pcJoinL j w hj' l r lc hpc)
-    · intro j w hj lc rc hpc
+      · exact hbmono _ (gi.pcJoinL j w hj' l r tag lc hpc)
+    · intro j w hj tag lc rc hpc
       rw [hts] at hj
       rcases getElem?_set_cases hj with ⟨_, rfl⟩ | ⟨_, hj'⟩
       · rcases hpc with hpc | ⟨d, hpc⟩
-        · rcases hTh.2.2.2.1 lc rc hpc with ⟨l, r, h1, h2⟩
+        · rcases hTh.2.2.2.1 tag lc rc hpc with ⟨l, r, h1, h2⟩
           have hr := hcur r (hheld r (by simp [h1, PC.held]))
           rw [h2] at hr
-          exact ⟨l, r, hbmono _ (gi.pcJoinL i th hth l r lc h1), hbmono _ hr⟩
-        · have h1 := hTh.2.2.2.2 d lc rc hpc
-          rcases gi.pcJoin i th hth lc rc (Or.inl h1) with ⟨l, r, h2, h3⟩
+          exact ⟨l, r, hbmono _ (gi.pcJoinL i th hth l r tag lc h1), hbmono _ hr⟩
+        · have h1 := hTh.2.2.2.2 d tag lc rc hpc
+          rcases gi.pcJoin i th hth tag lc rc (Or.inl h1) with ⟨l, r, h2, h3⟩
           exact ⟨l, r, hbmono _ h2, hbmono _ h3⟩
-      · rcases gi.pcJoin j w hj' lc rc hpc with ⟨l, r, h2, h3⟩
+      · rcases gi.pcJoin j w hj' tag lc rc hpc with ⟨l, r, h2, h3⟩
         exact ⟨l, r, hbmono _ h2, hbmono _ h3⟩
 
 theorem ginv_run (kit : Kit N) (sched : List Nat) :
@@ -909,6 +944,191 @@ theorem ginv_run (kit : Kit N) (sched : List Nat) :
   induction sched with
   | nil => intro c _ h; exact h
   | cons i rest ih => intro c h g; exact ih _ (inv_step kit c i h) (ginv_step kit c i h g)
+
+
+/-! ## the trace of user-code runs (laziness) -/
+
+/-- the chains an operation's outcome stands for having run: a finished collect ran its planned chain -/
+def Outcome.ran : Outcome N → List (List N)
+  | .collected _ ch => ch.toList
+  | _ => []
+
+theorem set_same {α : Type} (l : List α) (i : Nat) (a : α) (h : l[i]? = some a) : l.set i a = l := by
+  apply List.ext_getElem?
+  intro j
+  rw [List.getElem?_set]
+  split
+  · next hij =>
+    subst hij
+    have hlt : i < l.length := by
+      rcases Nat.lt_or_ge i l.length with h1 | h1
+      · exact h1
+      · rw [List.getElem?_eq_none h1] at h; cases h
+    rw [if_pos hlt, h]
+  · rfl
+
+theorem beginOp_calls (c : Cfg N) (th : Thread N) (op : Op N) (rest : List (Op N)) :
+    (beginOp c th op rest).calls = th.calls ∧
+    (beginOp c th op rest).outs.flatMap Outcome.ran = th.outs.flatMap Outcome.ran := by
+  cases op with
+  | source n => simp [beginOp]
+  | derive p sig n => cases sig <;> (simp only [beginOp]; split <;> simp [Thread.finish, Outcome.ran])
+  | join l r tag => simp only [beginOp]; split <;> simp [Thread.finish, Outcome.ran]
+  | collect x => simp only [beginOp]; split <;> simp [Thread.finish, Outcome.ran]
+  | setMetrics => simp [beginOp]
+  | takeMetrics => simp [beginOp]
+
+/-- **a step that is not the end of a collect runs no user code**: the stepping thread's trace is unchanged -/
+theorem stepTh_calls_build (kit : Kit N) (c : Cfg N) (th : Thread N) (h : ∀ x ch, th.pc ≠ .colEnd x ch) :
+    (stepTh kit c th).2.calls = th.calls := by
+  unfold stepTh
+  split
+  · split
+    · rfl
+    · exact (beginOp_calls c th _ _).1
+  · simp [Thread.finishBuilt]
+  · simp
+  · simp [Thread.finishBuilt]
+  · split <;> simp [Thread.finish]
+  · split <;> simp [Thread.finish]
+  · simp
+  · simp
+  · simp [Thread.finishBuilt]
+  · simp
+  · simp
+  · next x ch hpc => exact absurd hpc (h x ch)
+  · simp [Thread.finish]
+  · simp [Thread.finish]
+
+/-- the trace is exactly the chains of the finished collects, in order -/
+theorem stepTh_calls_inv (kit : Kit N) (c : Cfg N) (th : Thread N) (h : th.calls = th.outs.flatMap Outcome.ran) :
+    (stepTh kit c th).2.calls = (stepTh kit c th).2.outs.flatMap Outcome.ran := by
+  unfold stepTh
+  split
+  · split
+    · exact h
+    · rw [(beginOp_calls c th _ _).1, (beginOp_calls c th _ _).2]; exact h
+  · simp [Thread.finishBuilt, Outcome.ran, h]
+  · simpa using h
+  · simp [Thread.finishBuilt, Outcome.ran, h]
+  · split <;> simp [Thread.finish, Outcome.ran, h]
+  · split <;> simp [Thread.finish, Outcome.ran, h]
+  · simpa using h
+  · simpa using h
+  · simp [Thread.finishBuilt, Outcome.ran, h]
+  · simpa using h
+  · simpa using h
+  · simp [Thread.finish, Outcome.ran, h]
+  · simp [Thread.finish, Outcome.ran, h]
+  · simp [Thread.finish, Outcome.ran, h]
+
+/-- invariant: every thread's trace of user-code runs = the chains of its finished collects -/
+def CInv (c : Cfg N) : Prop :=
+  ∀ (j : Nat) (th : Thread N), c.threads[j]? = some th → th.calls = th.outs.flatMap Outcome.ran
+
+theorem cinv_init (progs : List (List (Op N))) : CInv (Cfg.init progs) := by
+  intro j th h
+  have := List.mem_of_getElem? h
+  simp only [Cfg.init, List.mem_map] at this
+  rcases this with ⟨p, _, rfl⟩
+  simp
+
+theorem step_threads (kit : Kit N) (c : Cfg N) (i : Nat) (th : Thread N) (hth : c.threads[i]? = some th) :
+    (step kit c i).threads = c.threads.set i (stepTh kit c th).2 := by
+  simp [step, hth, stepTh_threads]
+
+theorem cinv_step (kit : Kit N) (c : Cfg N) (i : Nat) (ci : CInv c) : CInv (step kit c i) := by
+  cases hth : c.threads[i]? with
+  | none => simp only [step, hth]; exact ci
+  | some th =>
+    intro j w hj
+    rw [step_threads kit c i th hth] at hj
+    rcases getElem?_set_cases hj with ⟨_, rfl⟩ | ⟨_, hj'⟩
+    · exact stepTh_calls_inv kit c th (ci i th hth)
+    · exact ci j w hj'
+
+theorem cinv_run (kit : Kit N) (sched : List Nat) : ∀ (c : Cfg N), CInv c → CInv (run kit c sched) := by
+  induction sched with
+  | nil => intro c h; exact h
+  | cons i rest ih => intro c h; exact ih _ (cinv_step kit c i h)
+
+/-! ### programs without a collect never run user code -/
+
+def Op.isCollect : Op N → Bool
+  | .collect _ => true
+  | _ => false
+
+def PC.inCollect : PC N → Bool
+  | .colStart _ => true
+  | .colSnap _ => true
+  | .colEnd _ _ => true
+  | _ => false
+
+/-- a thread that has no collect left to do, is not inside one and has never run one -/
+structure NoCol (th : Thread N) : Prop where
+  todo : ∀ op ∈ th.todo, Op.isCollect op = false
+  pc : th.pc.inCollect = false
+  calls : th.calls = []
+
+theorem beginOp_nocol (c : Cfg N) (th : Thread N) (op : Op N) (rest : List (Op N))
+    (hop : Op.isCollect op = false) (hpc : th.calls = []) :
+    (beginOp c th op rest).pc.inCollect = false ∧ (beginOp c th op rest).calls = [] ∧
+    (beginOp c th op rest).todo = rest := by
+  cases op with
+  | source n => simp [beginOp, PC.inCollect, hpc]
+  | derive p sig n => cases sig <;> (simp only [beginOp]; split <;> simp [Thread.finish, PC.inCollect, hpc])
+  | join l r tag => simp only [beginOp]; split <;> simp [Thread.finish, PC.inCollect, hpc]
+  | collect x => simp [Op.isCollect] at hop
+  | setMetrics => simp [beginOp, PC.inCollect, hpc]
+  | takeMetrics => simp [beginOp, PC.inCollect, hpc]
+
+theorem stepTh_nocol (kit : Kit N) (c : Cfg N) (th : Thread N) (h : NoCol th) : NoCol (stepTh kit c th).2 := by
+  have h1 := h.todo
+  have h2 := h.pc
+  have h3 := h.calls
+  unfold stepTh
+  split
+  · split
+    · exact h
+    · next op rest htd =>
+      rw [htd] at h1
+      have hb := beginOp_nocol c th op rest (h1 op (by simp)) h3
+      exact ⟨by rw [hb.2.2]; exact fun o ho => h1 o (by simp [ho]), hb.1, hb.2.1⟩
+  · exact ⟨by simpa [Thread.finishBuilt] using h1, by simp [Thread.finishBuilt, PC.inCollect], by simpa [Thread.finishBuilt] using h3⟩
+  · exact ⟨by simpa using h1, by simp [PC.inCollect], by simpa using h3⟩
+  · exact ⟨by simpa [Thread.finishBuilt] using h1, by simp [Thread.finishBuilt, PC.inCollect], by simpa [Thread.finishBuilt] using h3⟩
+  · split
+    · exact ⟨by simpa using h1, by simp [PC.inCollect], by simpa using h3⟩
+    · exact ⟨by simpa [Thread.finish] using h1, by simp [Thread.finish, PC.inCollect], by simpa [Thread.finish] using h3⟩
+  · split
+    · exact ⟨by simpa using h1, by simp [PC.inCollect], by simpa using h3⟩
+    · exact ⟨by simpa [Thread.finish] using h1, by simp [Thread.finish, PC.inCollect], by simpa [Thread.finish] using h3⟩
+  · exact ⟨by simpa using h1, by simp [PC.inCollect], by simpa using h3⟩
+  · exact ⟨by simpa using h1, by simp [PC.inCollect], by simpa using h3⟩
+  · exact ⟨by simpa [Thread.finishBuilt] using h1, by simp [Thread.finishBuilt, PC.inCollect], by simpa [Thread.finishBuilt] using h3⟩
+  · next hpc => rw [hpc] at h2; simp [PC.inCollect] at h2
+  · next hpc => rw [hpc] at h2; simp [PC.inCollect] at h2
+  · next hpc => rw [hpc] at h2; simp [PC.inCollect] at h2
+  · exact ⟨by simpa [Thread.finish] using h1, by simp [Thread.finish, PC.inCollect], by simpa [Thread.finish] using h3⟩
+  · exact ⟨by simpa [Thread.finish] using h1, by simp [Thread.finish, PC.inCollect], by simpa [Thread.finish] using h3⟩
+
+theorem nocol_step (kit : Kit N) (c : Cfg N) (i : Nat) (h : ∀ th ∈ c.threads, NoCol th) :
+    ∀ th ∈ (step kit c i).threads, NoCol th := by
+  cases hth : c.threads[i]? with
+  | none => simp only [step, hth]; exact h
+  | some th =>
+    intro w hw
+    rw [step_threads kit c i th hth] at hw
+    rcases List.getElem?_of_mem hw with ⟨j, hj⟩
+    rcases getElem?_set_cases hj with ⟨_, rfl⟩ | ⟨_, hj'⟩
+    · exact stepTh_nocol kit c th (h th (List.mem_of_getElem? hth))
+    · exact h w (List.mem_of_getElem? hj')
+
+theorem nocol_run (kit : Kit N) (sched : List Nat) :
+    ∀ (c : Cfg N), (∀ th ∈ c.threads, NoCol th) → ∀ th ∈ (run kit c sched).threads, NoCol th := by
+  induction sched with
+  | nil => intro c h; exact h
+  | cons i rest ih => intro c h; exact ih _ (nocol_step kit c i h)
 
 /-! ## append-only growth; first edge = last edge when in-degrees are at most one -/
 
